@@ -2,8 +2,8 @@
 import os, sys, time, json
 import vlib
 
-CFGS = {"quick": ["C07_q1.cfg", "C07_q2.cfg", "C07_q3s.cfg"],
-        "thorough": ["C07_t1.cfg", "C07_t2.cfg", "C07_q3.cfg"]}
+CFGS = {"quick": ["C07_q1.cfg", "C07_q2.cfg", "C07_q2p.cfg", "C07_q3s.cfg"],
+        "thorough": ["C07_t1.cfg", "C07_t2.cfg", "C07_q2p.cfg", "C07_q3.cfg"]}
 
 
 def cycles_model(tier, bcpath):
